@@ -25,7 +25,24 @@ ASSUMPTIONS = ["splits of the scikit-learn / verde cross-validators are inputs o
                "plus stress runs under dask's synchronous/threaded schedulers"]
 TRUSTED = ["scikit-learn scorers and clone", "dask.delayed / dask.compute schedulers"]
 
-SCORERS = [None, "r2", "neg_mean_squared_error", "neg_mean_absolute_error"]
+SCORERS = [None, "r2", "neg_mean_squared_error", "neg_mean_absolute_error", "pinball-0.9-loss"]      # the last: make_scorer(metric, alpha=0.9, greater_is_better=False)
+
+
+def scorer_of(scoring):
+    """The scikit-learn `scoring` argument for a name in SCORERS."""
+    if scoring == "pinball-0.9-loss":
+        from sklearn.metrics import make_scorer, mean_pinball_loss
+        return make_scorer(mean_pinball_loss, alpha=0.9, greater_is_better=False)
+    return scoring
+
+
+def metric_of(scoring):
+    """Independent evaluation of the same metric: (y, prediction, weights) -> score (greater is better)."""
+    from sklearn.metrics import mean_absolute_error, mean_pinball_loss, mean_squared_error, r2_score
+    return {None: lambda y, p, w: r2_score(y, p, sample_weight=w), "r2": lambda y, p, w: r2_score(y, p, sample_weight=w),
+            "neg_mean_squared_error": lambda y, p, w: -mean_squared_error(y, p, sample_weight=w),
+            "neg_mean_absolute_error": lambda y, p, w: -mean_absolute_error(y, p, sample_weight=w),
+            "pinball-0.9-loss": lambda y, p, w: -mean_pinball_loss(y, p, sample_weight=w, alpha=0.9)}[scoring]
 
 
 def make_cv(spec):
@@ -58,6 +75,9 @@ def mk_cv(coords, shape2d, data, weights, cvspec, scoring, est, kind):
         splits = splits_of(cvspec, coords[0], coords[1])
     except Exception:  # noqa: BLE001
         splits = []
+    if scoring == "pinball-0.9-loss":      # a metric with options is outside the Lean scorer table: decided by the oracle (independent recomputation)
+        return {"fn": "cv_score", "kind": kind + "-option-scorer", "args": [coords, shape2d, data, weights, cvspec, scoring, est], "op": "splinecv_select [ [ 0 ] ]",
+                "key": repr((coords, data, weights, cvspec, est))}
     return {"fn": "cv_score", "kind": kind, "args": [coords, shape2d, data, weights, cvspec, scoring, est],
             "op": f"cv_score {C.enc(coords)} {C.enc(data)} {C.enc(weights)} {C.enc(splits)} {scoring or 'r2'}"}
 
@@ -117,6 +137,8 @@ def corpus():
     for sc in ("neg_mean_squared_error", "medae-loss"):
         cs.append({"fn": "splinecv", "kind": "corpus-splinecv-loss-scorer", "args": [coords[:2], data[0], None, [1e-3, 1e-1, 1e1], 3, sc],
                    "op": "splinecv_select [ [ 0 ] ]", "key": "corpus-splinecv:" + sc})
+    cs.append({"fn": "splinecv", "kind": "corpus-splinecv-mindists", "args": [coords[:2], data[0], None, [1e-3, 1e1], 3, None, [0.0, 1.0, 4.0]],
+               "op": "splinecv_select [ [ 0 ] ]", "key": "corpus-splinecv:mindists"})
     return cs
 
 
@@ -172,9 +194,10 @@ def generate(rng, tier):
         else:
             dampings = sorted(rng.sample([1e-4, 1e-3, 1e-2, 1e-1, 1.0, 10.0], rng.randint(2, 3)))
             scoring = rng.choice(SCORERS + ["medae-loss", "neg_root_mean_squared_error"])
-            cs.append({"fn": "splinecv", "kind": "splinecv" + ("" if scoring in (None, "r2") else "-loss-scorer"),
-                       "args": [coords[:2], data[0], weights[0] if weights else None, dampings, rng.randint(2, 3), scoring],
-                       "op": "splinecv_select [ [ 0 ] ]", "key": repr((coords[:2], data[0], dampings, scoring))})
+            mindists = None if rng.random() < 0.5 else sorted(rng.sample([0.0, 0.5, 2.0, 8.0], rng.randint(2, 3)))
+            cs.append({"fn": "splinecv", "kind": "splinecv" + ("" if scoring in (None, "r2") else "-loss-scorer") + ("-mindists" if mindists else ""),
+                       "args": [coords[:2], data[0], weights[0] if weights else None, dampings, rng.randint(2, 3), scoring, mindists],
+                       "op": "splinecv_select [ [ 0 ] ]", "key": repr((coords[:2], data[0], dampings, scoring, mindists))})
     return cs
 
 
@@ -241,11 +264,11 @@ def impl(case):
         before = _deep_state(estimator)
 
         def run():
-            serial = vd.cross_val_score(estimator, cs, d_arg, weights=w_arg, cv=make_cv(cvspec), scoring=scoring)
+            serial = vd.cross_val_score(estimator, cs, d_arg, weights=w_arg, cv=make_cv(cvspec), scoring=scorer_of(scoring))
             if _deep_state(estimator) != before:
                 raise RuntimeError("estimator (or an estimator nested in it) modified")
             serial = [float(v) for v in serial]
-            delayed = vd.cross_val_score(estimator, cs, d_arg, weights=w_arg, cv=make_cv(cvspec), scoring=scoring, delayed=True)
+            delayed = vd.cross_val_score(estimator, cs, d_arg, weights=w_arg, cv=make_cv(cvspec), scoring=scorer_of(scoring), delayed=True)
             runs = [dask.compute(*delayed, scheduler="synchronous"), dask.compute(*delayed, scheduler="threads"),
                     tuple(reversed(dask.compute(*reversed(delayed), scheduler="threads")))]
             for r in runs:
@@ -256,9 +279,9 @@ def impl(case):
             # each task must still belong to its own call (no sharing of task names / results across calls)
             other = {"moment": lambda: MomentGridder(tag=5), "trend": lambda: vd.Trend(2), "chain": lambda: vd.Chain([("t", vd.Trend(2))]),
                      "vector": lambda: vd.Vector([vd.Trend(0), vd.Trend(2)])}[est]()
-            serial_b = [float(v) for v in vd.cross_val_score(other, cs, d_arg, weights=w_arg, cv=make_cv(cvspec), scoring=scoring)]
-            lazy_a = vd.cross_val_score(estimator, cs, d_arg, weights=w_arg, cv=make_cv(cvspec), scoring=scoring, delayed=True)
-            lazy_b = vd.cross_val_score(other, cs, d_arg, weights=w_arg, cv=make_cv(cvspec), scoring=scoring, delayed=True)
+            serial_b = [float(v) for v in vd.cross_val_score(other, cs, d_arg, weights=w_arg, cv=make_cv(cvspec), scoring=scorer_of(scoring))]
+            lazy_a = vd.cross_val_score(estimator, cs, d_arg, weights=w_arg, cv=make_cv(cvspec), scoring=scorer_of(scoring), delayed=True)
+            lazy_b = vd.cross_val_score(other, cs, d_arg, weights=w_arg, cv=make_cv(cvspec), scoring=scorer_of(scoring), delayed=True)
             both = [float(v) for v in dask.compute(*lazy_a, *lazy_b, scheduler="synchronous")]
             same = lambda x, y: len(x) == len(y) and all(p == q or (p != p and q != q) for p, q in zip(x, y))  # noqa: E731
             if not (same(both[:len(serial)], serial) and same(both[len(serial):], serial_b)):
@@ -285,7 +308,7 @@ def impl(case):
                 if scoring is None:
                     return float(g.score(cs, d_arg, w_arg))
                 from verde.base.utils import score_estimator
-                return float(score_estimator(scoring, g, cs, d_arg, weights=w_arg))
+                return float(score_estimator(scorer_of(scoring), g, cs, d_arg, weights=w_arg))
         r = C.call(run_score)
         return r if C.is_err(r) else ["score", r]
     if fn == "tts":
@@ -309,6 +332,8 @@ def impl(case):
 def _splinecv(a):
     coords, data, weights, dampings, k = a[:5]
     scoring = a[5] if len(a) > 5 else None
+    mindists = a[6] if len(a) > 6 else None
+    scoring = scorer_of(scoring)
     if scoring == "medae-loss":          # a user-made loss scorer (greater_is_better=False): scikit-learn negates it, highest is still best
         from sklearn.metrics import make_scorer, median_absolute_error
         scoring = make_scorer(median_absolute_error, greater_is_better=False)
@@ -320,26 +345,33 @@ def _splinecv(a):
         with warnings.catch_warnings():
             warnings.simplefilter("ignore")
             cv = KFold(n_splits=k, shuffle=True, random_state=0)
-            scv = vd.SplineCV(dampings=dampings, cv=cv, scoring=scoring).fit(cs, d, w)
-            scv_lazy = vd.SplineCV(dampings=dampings, cv=cv, delayed=True, scoring=scoring).fit(cs, d, w)
+            mkw = {} if mindists is None else {"mindists": tuple(mindists)}
+            scv = vd.SplineCV(dampings=dampings, cv=cv, scoring=scoring, **mkw).fit(cs, d, w)
+            scv_lazy = vd.SplineCV(dampings=dampings, cv=cv, delayed=True, scoring=scoring, **mkw).fit(cs, d, w)
             lazy_scores = [float(v) for v in dask.compute(*scv_lazy.scores_, scheduler="synchronous")]      # documented: Delayed objects
             if not np.allclose(lazy_scores, scv.scores_, rtol=1e-12, atol=0) or scv_lazy.damping_ != scv.damping_:
                 raise RuntimeError(f"SplineCV(delayed=True) differs from the serial run: scores {lazy_scores} vs {list(scv.scores_)}")
-            means = []
-            for dm in dampings:
-                sc = vd.cross_val_score(vd.Spline(damping=dm), cs, d, weights=w, cv=cv, scoring=scoring)
-                means.append(float(np.mean(sc)))
+            means, cands = [], []
+            for md in ([None] if mindists is None else list(mindists)):      # documented order: every mindist, and for each every damping
+                for dm in dampings:
+                    sp = vd.Spline(damping=dm) if md is None else vd.Spline(damping=dm, mindist=md)
+                    sc = vd.cross_val_score(sp, cs, d, weights=w, cv=cv, scoring=scoring)
+                    means.append(float(np.mean(sc)))
+                    cands.append((md, dm))
             best = int(np.argmax(means))
-            ref = vd.Spline(damping=dampings[best]).fit(cs, d, w)
+            bmd, bdm = cands[best]
+            ref = (vd.Spline(damping=bdm) if bmd is None else vd.Spline(damping=bdm, mindist=bmd)).fit(cs, d, w)
             q = (cs[0] + 0.125, cs[1] - 0.25)
-            return {"chosen": float(scv.damping_), "expected": float(dampings[best]), "scores": [float(v) for v in scv.scores_], "means": means,
+            if mindists is not None and float(scv.mindist_) != float(bmd) and abs(means[best] - sorted(means)[-2 if len(means) > 1 else -1]) > 1e-9 * max(1.0, abs(means[best])):
+                raise RuntimeError(f"SplineCV chose mindist {scv.mindist_} but the highest mean score belongs to mindist {bmd}, damping {bdm}")
+            return {"chosen": float(scv.damping_), "expected": float(bdm), "scores": [float(v) for v in scv.scores_], "means": means,
                     "pred_diff": float(np.max(np.abs(scv.predict(q) - ref.predict(q)))), "scale": float(np.max(np.abs(ref.predict(q))) + 1.0)}
     return C.call(run)
 
 
 def compare(case, io, mo):
     fn = case["fn"]
-    if fn in ("splinecv", "score") or (fn == "cv_score" and case["args"][6] in REAL):
+    if fn in ("splinecv", "score") or (fn == "cv_score" and (case["args"][6] in REAL or case["args"][5] == "pinball-0.9-loss")):
         return "ok"      # no model counterpart: decided by the oracle on the implementation
     if fn == "cv_score":
         e = C.err_compare(io, mo)
@@ -385,9 +417,7 @@ def oracle(case, io):
             t = mk_est(est).fit((E, N), D if ncomp > 1 else D[0], None if W is None else (W if ncomp > 1 else W[0]))
             pred = t.predict((E, N))
         pred = pred if ncomp > 1 else (pred,)
-        metric = {None: lambda y, p, w: r2_score(y, p, sample_weight=w), "r2": lambda y, p, w: r2_score(y, p, sample_weight=w),
-                  "neg_mean_squared_error": lambda y, p, w: -mean_squared_error(y, p, sample_weight=w),
-                  "neg_mean_absolute_error": lambda y, p, w: -mean_absolute_error(y, p, sample_weight=w)}[scoring]
+        metric = metric_of(scoring)
         exp = float(np.mean([metric(D[c], pred[c], None if W is None else W[c]) for c in range(ncomp)]))
         got = io[1]
         if not (abs(got - exp) <= 1e-7 * max(1.0, abs(exp))):
@@ -412,9 +442,7 @@ def oracle(case, io):
                                 None if wtr is None else (wtr if ncomp > 1 else wtr[0]))
             pred = t.predict((sel(coords[0], te), sel(coords[1], te)))
             pred = pred if ncomp > 1 else (pred,)
-            metric = {None: lambda y, p, w: r2_score(y, p, sample_weight=w), "r2": lambda y, p, w: r2_score(y, p, sample_weight=w),
-                      "neg_mean_squared_error": lambda y, p, w: -mean_squared_error(y, p, sample_weight=w),
-                      "neg_mean_absolute_error": lambda y, p, w: -mean_absolute_error(y, p, sample_weight=w)}[scoring]
+            metric = metric_of(scoring)
             exp = float(np.mean([metric(sel(data[c], te), pred[c], None if weights is None else sel(weights[c], te)) for c in range(ncomp)]))
             if not (abs(got - exp) <= 1e-7 * max(1.0, abs(exp)) or (got != got and exp != exp)):
                 return f"score {got} is not the {scoring or 'r2'} of a fresh clone fitted on the training rows and evaluated on the test rows ({exp})"
